@@ -6,6 +6,9 @@ the noise and the prior scaling sequence. Reference (checks/c17_ref.py):
 Gaussian elimination on exact rationals for n, m <= 4, on
 numpy.longdouble for the larger shapes, of both the state-space (n-form) and
 the measurement-space (m-form) expressions.
+
+Representation part: whole-number problems (small shapes) handed over as
+float64, float32, int64 and int32 arrays, judged against the same reference.
 """
 import functools
 import itertools
@@ -45,10 +48,31 @@ RULE = ("full product of shapes (n, m) in N x M (quick: N={1,2,3,5,30}, "
         "iff n <= 4 and m <= 4, longdouble otherwise. Non-trivial = K has a "
         "non-zero entry, max(n, m) > 1 (a scalar problem cannot tell K from "
         "K^T) and the relative tolerances on S, G and A are all <= 1e-3 "
-        "(the comparison decides).")
+        "(the comparison decides). Representation part: shapes N x M "
+        "(quick: N={1,2,3,5}, M={1,2,4}; thorough: N={1,..,5}, "
+        "M={1,2,3,4,6}) x whole-number Jacobian families (zero, selector, "
+        "rank 1, dense triangular, banded, rank-deficient) x pairs (S_a, "
+        "S_y) from 4 whole-number families (identity, diag 1/10/100, "
+        "tridiagonal 2/1, the same scaled by diag 1/2/4); each case is "
+        "evaluated with float64 C-ordered arrays as above and again with "
+        "(K, S_a, S_y) as float64|float32|int64|int32 arrays - quick: one "
+        "matrix at a time in every other dtype and all three in the same "
+        "one, thorough: every assignment; retrieval_noise gets a whole e_y "
+        "in the dtype of K, smoothing_error whole x and x_a in each of the "
+        "three other dtypes (problems that also occur above recur here with "
+        "the additional forms). Float32 assignments whose first-order float32 "
+        "error bound exceeds 1/4 are dropped and counted; non-trivial there "
+        "additionally requires the float32 tolerances to be <= 1e-3.")
 ASSUMPTIONS = [
-    "inputs are float64 ndarrays, contiguous in C or Fortran order (no "
-    "strided views, no other dtypes); covariances are exactly symmetric",
+    "inputs are ndarrays, contiguous in C or Fortran order (no strided "
+    "views); covariances are exactly symmetric; dtypes other than float64 "
+    "only in the representation part (float32, int64, int32, C order, "
+    "whole entries <= 100); nested lists and scalars for 1x1 problems are "
+    "not fed: the functions document np.array arguments and use K.T",
+    "scipy.linalg.inv works in float32 on float32 input, so with any "
+    "float32 matrix the tolerances are the float64 ones with the unit "
+    "roundoff 2^-24 in place of 2^-53; integer input must meet the float64 "
+    "tolerances",
     "results for Fortran-ordered inputs that are bit-identical to those for "
     "C-ordered inputs are not judged again; others must meet the value "
     "tolerances (the structural clauses - symmetry, definiteness, "
@@ -89,6 +113,38 @@ K_FAMILIES = ["zero", "selector", "rank1", "tri", "tri/10", "tri/64", "band",
 # they are, while no entry of K is of order 1 any more
 SY_FACTOR = {"tri*1e-9": 1e-18}
 
+# representation part: tier -> state dimensions, measurement dimensions
+REP_TIERS = {"quick": ([1, 2, 3, 5], [1, 2, 4]),
+             "thorough": ([1, 2, 3, 4, 5], [1, 2, 3, 4, 6])}
+WHOLE_COV = ("I", "diagw", "tri21", "tri21s")
+WHOLE_K = ("zero", "selector", "rank1", "tri", "band", "rankdef")
+DTYPES = ("f8", "f4", "i8", "i4")
+F32 = 2.0 ** 29                 # float32 unit roundoff over the float64 one
+
+
+def rep_forms(tier):
+    """Forms "C:<dtype of K>,<of S_a>,<of S_y>" of the representation part."""
+    every = [c for c in itertools.product(DTYPES, repeat=3)
+             if set(c) != {"f8"}]
+    if tier == "quick":
+        every = [c for c in every
+                 if len(set(c)) == 1 or sum(d != "f8" for d in c) == 1]
+    return tuple("C:" + ",".join(c) for c in every)
+
+
+def dtypes_of(form):
+    """Dtype codes of (K, S_a, S_y) in a form "C" | "F" | "C:a,b,c"."""
+    return form.partition(":")[2].split(",") if ":" in form else ["f8"] * 3
+
+
+def roundoff_factor(form):
+    return F32 if "f4" in dtypes_of(form) else 1.0
+
+
+def materialise(form, originals):
+    return tuple(np.array(x, dtype=d, order=form[0])
+                 for x, d in zip(originals, dtypes_of(form)))
+
 
 def layouts_of(tier, sa_scale, sy_scale):
     """Memory orders of the arrays handed to typhon: Fortran order (the one
@@ -126,6 +182,12 @@ def covariance(name, k, scale=1.0):
         rows = ar(Fraction(9, 10), lambda i: 10)
     elif name == "ar.9std":
         rows = ar(Fraction(9, 10), lambda i: Fraction(2) ** (i % 3 - 1))
+    elif name == "diagw":
+        rows = ar(Fraction(0), lambda i: 10 ** (i % 3))
+    elif name in ("tri21", "tri21s"):
+        d = [2 ** (i % 3) if name == "tri21s" else 1 for i in range(k)]
+        rows = [[d[i] * d[j] * max(0, 2 - abs(i - j)) for j in range(k)]
+                for i in range(k)]
     else:
         raise ValueError(name)
     out = np.array([[float(v) for v in r] for r in rows]) * scale
@@ -134,12 +196,13 @@ def covariance(name, k, scale=1.0):
 
 
 @functools.lru_cache(maxsize=None)
-def distinct_covariances(k, scales, factor=1.0):
+def distinct_covariances(k, scales, factor=1.0,
+                         families=tuple(COV_FAMILIES)):
     """(family, scale) pairs in enumeration order, without those whose
     matrix (at scale * factor) already occurred."""
     seen, out = set(), []
     for scale in scales:
-        for name in COV_FAMILIES:
+        for name in families:
             ident = covariance(name, k, scale * factor).tobytes()
             if ident not in seen:
                 seen.add(ident)
@@ -176,9 +239,9 @@ def jacobian(name, m, n):
     return np.array([[float(f(i, j)) for j in range(n)] for i in range(m)])
 
 
-def distinct_jacobians(m, n):
+def distinct_jacobians(m, n, families=tuple(K_FAMILIES)):
     seen, out = set(), []
-    for name in K_FAMILIES:
+    for name in families:
         K = jacobian(name, m, n)
         if K is not None and K.tobytes() not in seen:
             seen.add(K.tobytes())
@@ -194,6 +257,13 @@ def vectors(n, m):
             [np.ones(m), e_alt])
 
 
+def whole_vectors(n, m):
+    """Whole-number (x, x_a) and e_y of the representation part."""
+    return (np.arange(1.0, n + 1),
+            np.array([(-1.0) ** j * 3 for j in range(n)]),
+            np.array([(-1.0) ** i * (i + 1) for i in range(m)]))
+
+
 def shards(tier, seed):
     ns, ms, scales = TIERS[tier]
     for m in ms:                              # cached before the fork
@@ -204,8 +274,13 @@ def shards(tier, seed):
         for m in ms:
             for kname in distinct_jacobians(m, n):
                 full = ref.exact_rank(jacobian(kname, m, n)) == n
-                out.extend((tier, n, m, kname, full, fa, sa_scale)
+                out.extend(("main", tier, n, m, kname, full, fa, sa_scale)
                            for fa, sa_scale in distinct_covariances(n, scales))
+    for n, m in itertools.product(*REP_TIERS[tier]):
+        for kname in distinct_jacobians(m, n, WHOLE_K):
+            full = ref.exact_rank(jacobian(kname, m, n)) == n
+            out.extend(("rep", tier, n, m, kname, full, fa, 1.0) for fa, _
+                       in distinct_covariances(n, (1.0,), 1.0, WHOLE_COV))
     return out
 
 
@@ -230,6 +305,14 @@ def call(func, originals, args, *more):
             return None, ("inputs/modified-by-" + func.__name__, before,
                           after, "argument %d" % number)
     return value, None
+
+
+def suffix(form):
+    """Suffix of the violation keys of values computed from this form."""
+    if ":" not in form:
+        return ""
+    return "-for-float32-input" if "f4" in dtypes_of(form) else \
+        "-for-integer-input"
 
 
 def well_formed(name, value, shape):
@@ -262,9 +345,10 @@ def rel_tolerance(R):
 
 
 def check_case(R, K, Sa, Sy, layouts, stats=None):
-    """None or (key, expected, observed, msg). `layouts`: memory orders of
-    the arrays handed to typhon ("C" first). `stats` (a ShardResult) receives
-    the decidability counters and the measured margins."""
+    """None or (key, expected, observed, msg). `layouts`: forms of the
+    arrays handed to typhon - memory order "C" (first) | "F", or
+    "C:<dtypes>" for (K, S_a, S_y) in other dtypes. `stats` (a ShardResult)
+    receives the decidability counters and the measured margins."""
     from typhon.retrieval import oem
     m, n = K.shape
     fld = R.fld
@@ -273,8 +357,7 @@ def check_case(R, K, Sa, Sy, layouts, stats=None):
     # One set of arrays per memory order, handed to all functions one after
     # the other (Fortran order is the one that LAPACK can work on in place).
     originals = (K, Sa, Sy)
-    inputs = {layout: tuple(np.array(x, order=layout) for x in originals)
-              for layout in layouts}
+    inputs = {layout: materialise(layout, originals) for layout in layouts}
     outs = {}
     for layout in layouts:
         for name, func, shape in (
@@ -284,8 +367,8 @@ def check_case(R, K, Sa, Sy, layouts, stats=None):
             value, bad = call(func, originals, inputs[layout])
             bad = bad or well_formed(name, value, shape)
             if bad:
-                return bad[:3] + ((bad[3] + " inputs in %s order"
-                                   % layout).strip(),)
+                return (bad[0] + suffix(layout),) + bad[1:3] + (
+                    (bad[3] + " inputs as %s" % layout).strip(),)
             outs[name, layout] = np.asarray(value)
     S_t, G_t, A_t = (lift(outs[k, "C"]) for k in
                      ("error_covariance", "gain", "averaging_kernel"))
@@ -381,34 +464,57 @@ def check_case(R, K, Sa, Sy, layouts, stats=None):
                   R.c * norm_A * ref.fro(d), "A (x - x_a)")
         if bad:
             return bad
-    for layout, e_y in itertools.product(layouts, es):
-        value, bad = call(oem.retrieval_noise, originals, inputs[layout],
-                          e_y.copy())
-        bad = bad or well_formed("retrieval_noise", value, (n,))
+    wx, wx_a, we_y = whole_vectors(n, m)
+    for layout in layouts:
+        # whole e_y in the dtype of K where the matrices have other dtypes
+        noises = [e.copy() for e in es] if ":" not in layout else \
+            [we_y.astype(dtypes_of(layout)[0])]
+        for e_y in noises:
+            value, bad = call(oem.retrieval_noise, originals, inputs[layout],
+                              e_y)
+            bad = bad or well_formed("retrieval_noise", value, (n,))
+            if bad:
+                return bad
+            bad = off("retrieval_noise/value" + suffix(layout), lift(value),
+                      R.G @ lift(e_y), roundoff_factor(layout)
+                      * (R.tol_G + R.c * ref.fro(R.G)) * ref.fro(lift(e_y)),
+                      "G e_y, inputs as %s" % layout)
+            if bad:
+                return bad
+    d = lift(wx) - lift(wx_a)
+    for dtype in sorted({t for layout in layouts for t in dtypes_of(layout)}
+                        - {"f8"}):
+        value, bad = call(oem.smoothing_error, (wx, wx_a, A64),
+                          (wx.astype(dtype), wx_a.astype(dtype), A64.copy()))
+        bad = bad or well_formed("smoothing_error", value, (n,))
         if bad:
             return bad
-        bad = off("retrieval_noise/value", lift(value), R.G @ lift(e_y),
-                  (R.tol_G + R.c * ref.fro(R.G)) * ref.fro(lift(e_y)),
-                  "G e_y, inputs in %s order" % layout)
+        bad = off("smoothing_error/value" + suffix("C:" + dtype),
+                  lift(value), A_t @ d, roundoff_factor("C:" + dtype)
+                  * R.c * norm_A * ref.fro(d),
+                  "A (x - x_a), x, x_a as " + dtype)
         if bad:
             return bad
 
-    # --- Fortran-ordered inputs: the same values (bit for bit, or at least
-    # within the same tolerances)
+    # --- other forms of the inputs (Fortran order, other dtypes): the same
+    # values, bit for bit or at least within the tolerances of the form
     same_bits = True
-    for name, wants, tol in (
-            ("error_covariance", (("value", R.S),), R.tol_S),
-            ("gain", (("value-n-form", R.G), ("value-m-form", R.Gm)), R.tol_G),
-            ("averaging_kernel", (("value", R.A),), R.tol_A)):
-        if "F" not in layouts or \
-                np.array_equal(outs[name, "F"], outs[name, "C"]):
-            continue
-        same_bits = False
-        for what, want in wants:
-            bad = off("%s/%s" % (name, what), lift(outs[name, "F"]), want,
-                      tol, "inputs in F order")
-            if bad:
-                return bad
+    for layout in layouts[1:]:
+        for name, wants, tol in (
+                ("error_covariance", (("value", R.S),), R.tol_S),
+                ("gain", (("value-n-form", R.G), ("value-m-form", R.Gm)),
+                 R.tol_G),
+                ("averaging_kernel", (("value", R.A),), R.tol_A)):
+            if np.array_equal(outs[name, layout], outs[name, "C"]):
+                continue
+            same_bits = same_bits and layout != "F"
+            for what, want in wants:
+                bad = off("%s/%s%s" % (name, what, suffix(layout)),
+                          lift(outs[name, layout]), want,
+                          roundoff_factor(layout) * tol,
+                          "inputs as %s" % layout)
+                if bad:
+                    return bad
 
     if stats is not None:
         stats.count("exact_reference_cases" if fld.exact
@@ -426,7 +532,7 @@ def check_case(R, K, Sa, Sy, layouts, stats=None):
 
 
 def run_shard(shard):
-    tier, n, m, kname, full, fa, sa_scale = shard
+    part, tier, n, m, kname, full, fa, sa_scale = shard
     res = driver.ShardResult()
     K = jacobian(kname, m, n)
     Sa = covariance(fa, n, sa_scale)
@@ -435,18 +541,32 @@ def run_shard(shard):
     base = dict(n=n, m=m, K=kname, Sa=fa, sa_scale=sa_scale)
     last = None
     factor = SY_FACTOR.get(kname, 1.0)
-    for fy, sy_scale in distinct_covariances(m, TIERS[tier][2], factor):
+    if part == "rep":
+        measurement = distinct_covariances(m, (1.0,), 1.0, WHOLE_COV)
+    else:
+        measurement = distinct_covariances(m, TIERS[tier][2], factor)
+    for fy, sy_scale in measurement:
         if sa_scale != 1.0 and sy_scale != 1.0:
             continue
-        layouts = layouts_of(tier, sa_scale, sy_scale)
-        case = dict(base, Sy=fy, sy_scale=sy_scale, layouts=layouts)
         Sy = covariance(fy, m, sy_scale * factor)
+        case = dict(base, Sy=fy, sy_scale=sy_scale)
         try:
             R = reference(K, Sa, Sy, full)
             if R is None:
                 res.count("skipped_ill_conditioned")
                 continue
-            rel = rel_tolerance(R)
+            if part == "rep":
+                layouts = ("C",) + tuple(
+                    form for form in rep_forms(tier)
+                    if R.first_order * roundoff_factor(form) <= 0.25)
+                res.count("representation_cases")
+                res.count("representation_forms", len(layouts) - 1)
+                res.count("float32_forms_skipped_ill_conditioned",
+                          len(rep_forms(tier)) + 1 - len(layouts))
+            else:
+                layouts = layouts_of(tier, sa_scale, sy_scale)
+            case["layouts"] = layouts
+            rel = rel_tolerance(R) * max(map(roundoff_factor, layouts))
             last = case
             res.case(nontrivial=bool(K.any()) and max(n, m) > 1
                      and rel <= DECISIVE)
